@@ -573,7 +573,16 @@ func c09ReadersTerminate(c *core.Ctx) {
 				if es, isE := cl.Comm.(*ast.ExprStmt); isE {
 					if ue, isU := es.X.(*ast.UnaryExpr); isU && ue.Op == token.ARROW {
 						if ce, isC := ast.Unparen(ue.X).(*ast.CallExpr); isC && calleeNameOf(ce) == "Done" {
-							ctxDone = true
+							// the request-context arm releases the handler: it must mark the context done (Flush),
+							// because HandleRequest blocks on ctx.Done() and nothing else will ever answer a dead request
+							for _, st := range cl.Body {
+								ast.Inspect(st, func(x ast.Node) bool {
+									if c2, isC2 := x.(*ast.CallExpr); isC2 && calleeNameOf(c2) == "Flush" {
+										ctxDone = true
+									}
+									return true
+								})
+							}
 						}
 						if fieldOf(k.Info(), ue.X) == "HttpContext.done" {
 							done = true
@@ -583,7 +592,7 @@ func c09ReadersTerminate(c *core.Ctx) {
 			}
 			ok = ctxDone && done
 		}
-		c.Check(R, "types.NewHttpContext/watcher-has-both-exits", nc.Pos(), ok, "the per-request watcher ends when the request context ends or when the response was written")
+		c.Check(R, "types.NewHttpContext/watcher-has-both-exits", nc.Pos(), ok, "the per-request watcher ends when the response was written, or when the request context ends — and then calls Flush so that the blocked handler is released")
 	}
 	_ = sort.Strings
 }
